@@ -51,11 +51,23 @@ def scenarios(tier, rng):
     Hf, Nf, seedf, boxf = 5, 1200, rng.below(1000), boxes[1]
     for B, mode, ex in [(50, 0, 0), (3, 0, 0), (50, 1, 0), (10000000, 0, 0), (17, 1, 1), (50, 0, 1)]:
         sc.append(dict(H=Hf, B=B, mode=mode, ex=ex, N=Nf, seed=seedf, box=boxf, charge=1, fam="g"))
+    # special positions (C04: "points on cell faces, cell centres and cell axes"): place = bitmask understood by h_num
+    # (1 polar axis, 2 x axis, 4 y axis, 8 exact cell centre, 16 cell face, 32 cell edge); dyadic and non-dyadic boxes
+    for H, place, box in [(4, 6, boxes[0]), (4, 48, boxes[0]), (3, 1, boxes[0]), (4, 8, boxes[0]), (4, 48, boxes[1]), (5, 54, boxes[2])]:
+        sc.append(dict(H=H, B=rng.choice([7, 30]), mode=rng.below(2), ex=0, N=500, seed=rng.below(1000), box=box, charge=1, fam=None, place=place))
+    # periodic variant (C04/C10: "numerical kernels match the explicit sum over those images"): four-step sequence with k extra
+    # levels against the explicit long-double image sum over the interval the library reports
+    pk = [(2, -1), (2, 0), (3, 1), (4, 0), (3, -1)] + ([(4, 2), (2, 2), (5, 1)] if tier != "quick" else [(3, 2)])
+    for H, k in pk:
+        sc.append(dict(H=H, B=rng.choice([3, 10, 1000]), mode=rng.below(2), ex=0, N=60 if k >= 2 else 90, seed=rng.below(1000), box=boxes[(H + k) % 3], charge=(H + k) % 2, fam=None, k=k))
     return sc
 
 
 def cmdline(s):
-    return "num %d %d %d %d %d %d %r %r %r %r %d" % (s["H"], s["B"], s["mode"], s["ex"], s["N"], s["seed"], s["box"][0], s["box"][1], s["box"][2], s["box"][3], s["charge"])
+    if "k" in s:
+        return "nump %d %d %d %d %d %d %r %r %r %r %d" % (s["H"], s["B"], s["mode"], s["k"], s["N"], s["seed"], s["box"][0], s["box"][1], s["box"][2], s["box"][3], s["charge"])
+    return "num %d %d %d %d %d %d %r %r %r %r %d%s" % (s["H"], s["B"], s["mode"], s["ex"], s["N"], s["seed"], s["box"][0], s["box"][1], s["box"][2], s["box"][3], s["charge"],
+                                                     (" %d" % s["place"]) if "place" in s else "")
 
 
 def parse(line):
@@ -100,14 +112,19 @@ def run_num(pid, kernel, kname, tier, seed):
             for s, line in zip(sc, out):
                 rep.evaluations += 1
                 case = "%s order=%d %s: %s" % (kname, param, real, cmdline(s))
+                where = ""
+                if "place" in s:
+                    dyadic = (s["box"] == (0.5, 0.5, 0.5, 1.0))
+                    where = ":" + {1: "polar-axis", 8: "cell-centre"}.get(s["place"], "face-edge-axis" + ("" if dyadic else "-nondyadic"))
                 if line.startswith("ABORT"):
-                    rep.violation(dict(kind="abort", clause="num", has_input=True), "aborted on " + case + ": " + line, dict(case=case, impl=line)); continue
+                    rep.violation(dict(kind="abort", clause="num" + where, has_input=True), "aborted on " + case + ": " + line, dict(case=case, impl=line)); continue
                 r = parse(line)
                 rep.nontrivial.add(case) if s["H"] >= 4 else None
                 if r["finite"] != "1" or int(r["count"]) != s["N"]:
-                    rep.violation(dict(kind="oracle", clause="finite", has_input=True), "non-finite or missing results on " + case, dict(case=case, impl=line)); continue
+                    rep.violation(dict(kind="oracle", clause="finite" + where, has_input=True), "non-finite or missing results on " + case, dict(case=case, impl=line))
+                    if not where or int(r["count"]) != s["N"]: continue      # special positions: still check what is finite (NaN never raises the maxima)
                 ep, ef = float(r["epot"]), float(r["efrc"])
-                lim_p, lim_f = (fp, ff) if s["H"] <= 2 else (bp, bf)
+                lim_p, lim_f = (fp, ff) if (s["H"] <= 2 and "k" not in s) else (bp, bf)
                 if ep > lim_p or ef > lim_f:
                     rep.violation(dict(kind="oracle", clause="accuracy", has_input=True),
                                   "normalised error (potential %.3e, force %.3e) above the order-%d band (%.1e, %.1e) on %s" % (ep, ef, param, lim_p, lim_f, case), dict(case=case, impl=line))
